@@ -91,3 +91,32 @@ fn c03_udp_v4() {
 fn c03_udp_v6_empty() {
     udp_case(true, 8, 2, 0)
 }
+
+//# harness: c20_udp_events
+//# props: C20
+//# tier: quick
+//# encodes: layer_4::udp::repl
+//# encodes: logger::MetaLogger::{udp_recv,udp_send,udp_drop}
+//# bounds: 8-byte header + 2 payload bytes symbolic; application reply None or 2 bytes
+//# stubs: proto::repl -> recording contract stub
+//# cover: answered
+//# cover: dropped
+#[kani::proof]
+#[kani::unwind(8)]
+#[kani::stub(crate::proto::repl, crate::verif_util::proto_repl_stub)]
+fn c20_udp_events() {
+    let buf: [u8; 10] = kani::any();
+    let udp_req = UdpPacket::new(&buf[..]).unwrap();
+    let masscanned = ms_counting([0, 0], MacAddr::new(0, 1, 2, 3, 4, 5));
+    let mut ci = ClientInfo::new();
+    ci.ip.src = Some(IpAddr::V4(any_ip4()));
+    ci.ip.dst = Some(IpAddr::V4(any_ip4()));
+    ci.transport = Some(IpNextHeaderProtocols::Udp);
+    proto_rec().cfg_reply_len = 2;
+    let r = repl(&udp_req, &masscanned, &mut ci);
+    assert!(balanced(L_UDP, r.is_some()), "C20: UDP layer did not log exactly one recv and one terminal event (send iff answered)");
+    let shown = ev(L_UDP).ci_recv.unwrap();
+    assert!(shown.port.src == Some(udp_req.get_source()) && shown.port.dst == Some(udp_req.get_destination()), "C20: ports shown to the logger are not the datagram's");
+    kani::cover!(r.is_some(), "answered");
+    kani::cover!(r.is_none(), "dropped");
+}
